@@ -27,6 +27,7 @@ import yaml
 
 from harness.common import REPO, enc, dec, run_driver
 
+import insights
 from insights import settings
 from insights.core import dr, plugins
 from insights.core.evaluators import InsightsEvaluator, SingleEvaluator
@@ -35,6 +36,7 @@ from insights.core.exceptions import (BlacklistedSpec, CalledProcessError, Conte
 from insights.core.plugins import Response
 from insights.parsers.client_metadata import BranchInfo
 from insights.specs import Specs
+from insights.formats import render as render_rule_content
 from insights.formats._json import JsonFormat, JsonFormatterAdapter
 from insights.formats._yaml import YamlFormat, YamlFormatterAdapter
 
@@ -415,6 +417,66 @@ MODULES = ["vc12pkga.plugins.mod_a", "vc12pkgb.rules.mod_a", "vc12pkga.plugins.m
 _counter = [0]
 
 
+# --------------------------------------------------------------------------- rule CONTENT templates
+
+TEMPLATES = {
+    "fine": "Detected {{ error_key }}{{ pass_key }}{{ info_key }} with n={{ n }}",
+    "undefined": "Value: {{ nothere.attr }}",                 # jinja2 UndefinedError
+    "raises-div": "Usage {{ used / total }}",                 # ZeroDivisionError with total=0
+    "raises-filter": "Items {{ count|join(',') }}",           # TypeError: 'int' object is not iterable
+}
+TEMPLATE_KW = {"raises-div": [["used", 5], ["total", 0]], "raises-filter": [["count", 5]], "fine": [["n", 3]]}
+
+
+def content_value(c, act):
+    """the `content` object a rule carries: a string, a dict keyed by the response key, or by key then class"""
+    t = TEMPLATES[c["template"]]
+    if c["form"] == "str":
+        return t
+    key = act.get("key") if isinstance(act.get("key"), str) and act.get("key") else "K1"
+    if c["form"] == "dict-key":
+        return {key: t, "OTHER": "unused"}
+    cls = act_class(act) if act.get("k") in ("ret", "md", "mdk", "mknone") else plugins.make_fail
+    return {key: {cls: t, plugins.make_none: "none"}}
+
+
+# --------------------------------------------------------------------------- configuration glue (spec side)
+
+def entry_name(kind, fullname):
+    if kind == "exact":
+        return fullname
+    if kind == "prefix-name":
+        return fullname[:fullname.rindex("_") + 1]
+    return fullname[:fullname.rindex(".") + 1]           # prefix-module: everything defined in that module
+
+
+def entry_matches(name, kind, cname):
+    """a configuration entry applies to every loaded component whose name starts with the entry's name; an exact
+    name stands for that component alone"""
+    return cname == name or (kind != "exact" and cname.startswith(name))
+
+
+def real_config(cfg, names):
+    out = {"default_component_enabled": cfg["default"], "configs": []}
+    for e in cfg["entries"]:
+        d = {"name": entry_name(e["kind"], names[e["target"]])}
+        for k in ("enabled", "tags", "links"):
+            if e.get(k) is not None:
+                d[k] = e[k]
+        out["configs"].append(d)
+    return out
+
+
+def apply_real(cfg, names):
+    c = real_config(cfg, names)
+    insights.apply_default_enabled(c)
+    insights.apply_configs(c)
+
+
+def restore_enabled():
+    insights.apply_default_enabled({"default_component_enabled": True})
+
+
 class RuleSet(object):
     """the real components of one case"""
 
@@ -425,6 +487,19 @@ class RuleSet(object):
         self.comps = {}
         self.ids = {}
         self.names = {}
+        conf = case.get("config")
+        self.configured = bool(conf)
+        # the names the components WILL have (a configuration applied before they are defined names them already)
+        predicted = {b["id"]: "%s.b%d_%d" % (MODULES[0], b["id"], tag) for b in case["bases"]}
+        predicted.update({r["id"]: "%s.r%d_%d" % (r["module"], r["id"], tag) for r in case["rules"]})
+        if conf and conf.get("before"):
+            apply_real(conf["before"], predicted)
+        for m in MODULES:
+            fake_module(m).CONTENT = None
+        for r in case["rules"]:
+            c = r.get("content")
+            if c and c["where"] == "module":
+                fake_module(r["module"]).CONTENT = content_value(c, r["act"])
         for b in case["bases"]:
             self.comps[b["id"]] = self._base(b, tag)
         for r in case["rules"]:
@@ -432,14 +507,43 @@ class RuleSet(object):
         for i, c in self.comps.items():
             self.ids[c] = i
             self.names[i] = dr.get_name(c)
+        assert self.names == predicted, (self.names, predicted)
         for r in case["rules"]:
             if not r["enabled"]:
                 dr.set_enabled(self.comps[r["id"]], False)
             for j in r["ignore"]:
                 dr.add_ignore(self.comps[r["id"]], self.comps[j])
+        # spec side of the configuration history: what every component's enabled / tags / links must be now
+        d0 = conf["before"]["default"] if conf and conf.get("before") else True
+        self.eff = {}
+        for b in case["bases"]:
+            self.eff[b["id"]] = {"enabled": d0, "tags": None, "links": None}
+        for r in case["rules"]:
+            self.eff[r["id"]] = {"enabled": d0 and r["enabled"], "tags": r["tags"], "links": r["links"]}
+        self.declared = {i: dict(v) for i, v in self.eff.items()}
+        for cfg in (conf or {}).get("after", []):
+            apply_real(cfg, self.names)
+            for i in self.eff:
+                self.eff[i]["enabled"] = cfg["default"]
+            for e in cfg["entries"]:
+                name = entry_name(e["kind"], self.names[e["target"]])
+                for i in self.eff:
+                    if entry_matches(name, e["kind"], self.names[i]):
+                        self.eff[i]["enabled"] = cfg["default"] if e.get("enabled") is None else e["enabled"]
+                        if e.get("tags") is not None:
+                            self.eff[i]["tags"] = e["tags"]
+                        if e.get("links") is not None:
+                            self.eff[i]["links"] = e["links"]
         self.graph = {c: set(dr.get_delegate(c).dependencies) for c in self.comps.values()}
         self.rule_ids = [r["id"] for r in case["rules"]]
         self.by_name = {self.names[i]: i for i in self.rule_ids}
+        self.stats = {}
+
+    def base_present(self, b):
+        """whether the base component is in the broker after an evaluation"""
+        if b["how"] in ("seed", "seednone"):
+            return True
+        return b["how"] in ("run", "none") and self.eff[b["id"]]["enabled"]
 
     def _base(self, b, tag):
         how = b["how"]
@@ -497,6 +601,9 @@ class RuleSet(object):
             kw["tags"] = r["tags"]
         if r["links"] is not None:
             kw["links"] = r["links"]
+        c = r.get("content")
+        if c and c["where"] == "kwarg":
+            kw["content"] = content_value(c, r["act"])
         return plugins.rule(*items, **kw)(fn)
 
     def broker(self):
@@ -516,21 +623,37 @@ class RuleSet(object):
     def decl_lines(self):
         case = self.case
         out = ["new\t%d\t%d" % (case["limit"], 1 if case["store_skips"] else 0)]
+
+        def links_field(links):
+            return "~" if links is None else (",".join("%s=%s" % (enc(k), ";".join(enc(u) for u in us) or "-")
+                                                       for k, us in links.items()) or "-")
         for b in case["bases"]:
-            out.append("comp\t%d\t%s\t%d" % (b["id"], enc(self.names[b["id"]]), 1 if b["how"] in PRESENT_HOWS else 0))
+            out.append("comp\t%d\t%s\t%d" % (b["id"], enc(self.names[b["id"]]), 1 if self.base_present(b) else 0))
         for r in case["rules"]:
             c = self.comps[r["id"]]
             d = dr.get_delegate(c)
             mod = dr.BASE_MODULE_NAMES.get(c)
-            links = d.links
+            if self.configured:
+                # as DECLARED (and set_enabled); the configurations applied afterwards follow as centry / capply lines
+                dec = self.declared[r["id"]]
+                tags, links, enabled = sorted(set(dec["tags"] or [])), dec["links"], dec["enabled"]
+            else:
+                tags, links, enabled = sorted(dr.get_tags(c)), d.links, r["enabled"]
             out.append("\t".join([
                 "rule", str(r["id"]), enc(self.names[r["id"]]), enc(mod) if mod is not None else "~",
-                ",".join(enc(t) for t in sorted(dr.get_tags(c))) or "-",
-                "~" if links is None else (",".join("%s=%s" % (enc(k), ";".join(enc(u) for u in us) or "-") for k, us in links.items()) or "-"),
+                ",".join(enc(t) for t in tags) or "-", links_field(links),
                 ",".join(map(str, r["requires"])) or "-",
                 ";".join(",".join(map(str, g)) for g in r["alo"]) or "-",
                 ",".join(map(str, r["ignore"])) or "-",
-                "1" if r["enabled"] else "0"] + act_fields(r["act"])))
+                "1" if enabled else "0"] + act_fields(r["act"])))
+        for cfg in (case.get("config") or {}).get("after", []):
+            for e in cfg["entries"]:
+                out.append("\t".join([
+                    "centry", enc(entry_name(e["kind"], self.names[e["target"]])), "1" if e["kind"] == "exact" else "0",
+                    "~" if e.get("enabled") is None else ("1" if e["enabled"] else "0"),
+                    "~" if e.get("tags") is None else (",".join(enc(t) for t in sorted(set(e["tags"]))) or "-"),
+                    "~~" if e.get("links") is None else links_field(e["links"])]))
+            out.append("capply\t%d" % (1 if cfg["default"] else 0))
         return out
 
     def run_line(self, order):
@@ -609,7 +732,7 @@ def spec_outcome(rs, r, b, limit):
     ("nothing",) | ("exception",) | ("skip", missing_required_ids, missing_groups) | ("resp", cls, key, kw) | ("none",)"""
     case = rs.case
     present = lambda i: rs.comps[i] in b
-    if not r["enabled"]:
+    if not rs.eff[r["id"]]["enabled"]:
         return ("nothing",)
     if any(present(i) for i in r["ignore"]):
         return ("exception",) if case["store_skips"] else ("nothing",)
@@ -758,10 +881,11 @@ def oracle_ruleset(rs, results, skips, exc_ids, metadata, mdkeys, b, limit, orde
                 problems.append("key %r instead of %r" % (e.get("key"), key))
             if e.get("component") != name:
                 problems.append("component %r" % e.get("component"))
-            if sorted(e.get("tags", [])) != sorted(set(r["tags"] or [])):
-                problems.append("tags %r instead of %r" % (e.get("tags"), r["tags"]))
-            if (e.get("links") or {}) != (r["links"] or {}):
-                problems.append("links %r instead of %r" % (e.get("links"), r["links"]))
+            eff = rs.eff[r["id"]]
+            if sorted(e.get("tags", [])) != sorted(set(eff["tags"] or [])):
+                problems.append("tags %r instead of %r" % (e.get("tags"), eff["tags"]))
+            if (e.get("links") or {}) != (eff["links"] or {}):
+                problems.append("links %r instead of %r" % (e.get("links"), eff["links"]))
             if e.get("%s_id" % t) != "%s|%s" % (mod, key):
                 problems.append("id %r instead of %r" % (e.get("%s_id" % t), "%s|%s" % (mod, key)))
             if dict(e.get("details", {})) != det:
@@ -917,15 +1041,49 @@ def gen_case(rng, quick, mode=None):
             act = {"k": "other", "v": rng.choice(FALSY_OTHERS + FALSY_OTHERS + TRUTHY_OTHERS)}
         else:
             act = {"k": "raise", "e": rng.choice(EXC_KINDS), "n": rng.randint(1, 5)}
+        if act["k"] in ("ret", "mknone", "none") and rng.random() < 0.55:
+            # a CONTENT template for the rule: on the decorator or in the module, as a string / keyed by the response key
+            # / keyed by key and class; it renders fine, hits an undefined name, or RAISES while rendering
+            c = {"where": rng.choice(["kwarg", "kwarg", "module"]), "form": rng.choice(["str", "dict-key", "dict-key-class"]),
+                 "template": rng.choice(["fine", "undefined", "raises-div", "raises-filter", "raises-div"])}
+            r["content"] = c
+            if act["k"] == "ret":
+                have = [k for k, _ in act["kw"]]
+                act = dict(act, kw=list(act["kw"]) + [kv for kv in TEMPLATE_KW.get(c["template"], []) if kv[0] not in have])
         r["act"] = act
         rules.append(r)
     fmts = []
-    for kind in ("json", "yaml"):
+    first_render = rng.random() < 0.5
+    for kind, render in (("json", first_render), ("json", not first_render), ("yaml", rng.random() < 0.5)):
         show = [s for s in SHOW_CHOICES if rng.random() < 0.4] if rng.random() < 0.75 else []
         rng.shuffle(show)
-        fmts.append({"kind": kind, "missing": rng.random() < 0.5, "fail_only": rng.random() < 0.2, "show": show})
+        fmts.append({"kind": kind, "missing": rng.random() < 0.5, "fail_only": rng.random() < 0.2, "show": show,
+                     "render": render})
     return {"limit": limit, "store_skips": rng.random() < 0.4, "bases": bases, "rules": rules, "fmts": fmts,
             "scenarios": UNIFORM_SCENARIOS + [gen_scenario(rng)]}
+
+
+def gen_config(rng, case, default=None):
+    ids = [r["id"] for r in case["rules"]] + [b["id"] for b in case["bases"]]
+    rule_ids = [r["id"] for r in case["rules"]]
+    entries = []
+    for _ in range(rng.choice([1, 1, 2, 3])):
+        e = {"target": rng.choice(rule_ids + rule_ids + ids),
+             "kind": rng.choice(["exact", "exact", "exact", "prefix-name", "prefix-module"]),
+             "enabled": rng.choice([False, False, False, True, None]),
+             "tags": rng.choice([None, None, ["cfg"], ["cfg", "t9"], []]),
+             "links": rng.choice([None, None, {"kcs": ["https://cfg/1"]}, {}])}
+        entries.append(e)
+    return {"default": (rng.random() < 0.9) if default is None else default, "entries": entries}
+
+
+def gen_config_case(rng, quick):
+    """apply_configs(c1); define the rules; apply_configs(c2) [; apply_configs(c3)]; evaluate"""
+    case = gen_case(rng, quick)
+    case["config"] = {"before": gen_config(rng, case) if rng.random() < 0.8 else None,
+                      "after": [gen_config(rng, case) for _ in range(rng.choice([1, 1, 2]))]}
+    case["scenarios"] = [UNIFORM_SCENARIOS[rng.randrange(4)]]
+    return case
 
 
 def pad_to_limit(rng, act, limit):
@@ -958,6 +1116,8 @@ def parse_args(kind, f):
         argv.append("-m")
     if f["fail_only"]:
         argv.append("-F")
+    if f.get("render"):
+        argv.append("-r")
     if f["show"]:
         argv += ["-S"] + list(f["show"])
     return Adapter(p.parse_args(argv))
@@ -973,6 +1133,19 @@ def evaluate(rs, chk=None):
     fails = []
     unfiltered = None
     order0 = None
+    # every component's dr.is_enabled is what the latest configuration (or dr.set_enabled) says
+    for i, c in rs.comps.items():
+        if bool(dr.is_enabled(c)) != bool(rs.eff[i]["enabled"]):
+            fails.append(("dr.is_enabled(%s) is %r, the configuration history says %r"
+                          % (rs.names[i], dr.is_enabled(c), rs.eff[i]["enabled"]), None))
+    try:
+        return _evaluate(rs, case, limit, lines, impl, kinds, fails, unfiltered, order0)
+    finally:
+        if rs.configured:
+            restore_enabled()
+
+
+def _evaluate(rs, case, limit, lines, impl, kinds, fails, unfiltered, order0):
     with Limit(limit):
         runs = [(SingleEvaluator, None)] + [(InsightsEvaluator, sc) for sc in case.get("scenarios", UNIFORM_SCENARIOS[:1])]
         for E, sc in runs:
@@ -987,6 +1160,16 @@ def evaluate(rs, chk=None):
             if E is SingleEvaluator:
                 unfiltered = resp
                 order0 = list(b.vorder)
+                for r in case["rules"]:         # evidence: what rendering this rule's content does
+                    comp = rs.comps[r["id"]]
+                    if r.get("content") and comp in b:
+                        try:
+                            text = render_rule_content(comp, b[comp])
+                            tag = "undefined-fallback" if "Failed to render the Content" in text else "rendered"
+                        except Exception as ex:
+                            tag = "raises-" + type(ex).__name__
+                        k = "template:%s/%s/%s -> %s" % (r["content"]["where"], r["content"]["form"], r["content"]["template"], tag)
+                        rs.stats[k] = rs.stats.get(k, 0) + 1
             st = rs.canon_state(ev, b)
             if sc is None:
                 lines.append(rs.run_line(b.vorder))
@@ -1017,6 +1200,9 @@ def evaluate(rs, chk=None):
             kinds.append("report:" + E.__name__)
         for f in case["fmts"]:
             adapter = parse_args(f["kind"], f)
+            k = "options:%s%s%s%s%s" % (f["kind"], " -m" if f["missing"] else "", " -F" if f["fail_only"] else "",
+                                        " -r" if f.get("render") else "", " -S" if f["show"] else "")
+            rs.stats[k] = rs.stats.get(k, 0) + 1
             b = rs.broker()
             buf = io.StringIO()
             raised = None
@@ -1442,9 +1628,10 @@ def run(chk):
     rng = chk.rng
     quick = chk.tier == "quick"
     n_repr = 1500 if quick else 40000
-    n_mk = 6000 if quick else 150000
-    n_sets = 800 if quick else 12000
-    n_hist = 400 if quick else 6000
+    n_mk = 4000 if quick else 150000
+    n_sets = 600 if quick else 12000
+    n_hist = 300 if quick else 6000
+    n_conf = 120 if quick else 1500
     chk.rule = ("rule sets: 1-4 base components (seeded / run / raising / skipping) and 1-10 (thorough: 24) fresh @rule functions in four fake "
                 "modules, two of which share their simple name, with required / at-least-one / optional dependencies on bases and on "
                 "earlier rules, IGNORE entries, 10% disabled, shared keys K1/K2, every return kind (the five keyed make_* classes, "
@@ -1468,6 +1655,14 @@ def run(chk):
                  "dependencies (None-valued member first or last next to a valued / absent / None-valued one); every rule set "
                  "is evaluated by InsightsEvaluator five times with Specs.machine_id / Specs.redhat_release / BranchInfo / "
                  "Specs.metadata_json absent, fine, raising on every read, empty, and one random mix incl. raise-on-first-read")
+    chk.rule += ("; rules carry CONTENT templates (content= on the decorator or CONTENT in the module; a string, a dict keyed by "
+                 "the response key, or by key and class) that render fine, hit an undefined name, or raise while rendering "
+                 "(division by zero, a filter on the wrong type); every rule set is printed by JsonFormat with and without -r "
+                 "and by YamlFormat, each with random -m / -F / -S (the option combinations and the template outcomes are "
+                 "counted in input_distribution as options:* and template:*); the first 120 (thorough 1500) generated rule sets "
+                 "are configuration histories: apply_default_enabled + apply_configs(c1) before the rules are defined, then "
+                 "dr.set_enabled, then one or two more configurations with exact-name, name-prefix and module-prefix entries "
+                 "carrying enabled / tags / links (config:* counts)")
     chk.assumptions = [
         "the body of a rule is a fixed action (it does not look at its arguments); argument binding is C02's subject",
         "repr() of str is modelled for ASCII exactly and takes code points >= 0xa1 other than U+00AD as printable; values inside responses are None/bool/int/str/list of str",
@@ -1608,13 +1803,27 @@ def run(chk):
                           "passes": not any(f["case"].get("kind") == "history" for f in chk.failures)})
     corpus = [c for c in corpus if "rules" in c] + [nonresponse_case()]
     for idx in range(n_sets + len(corpus)):
-        case = corpus[idx] if idx < len(corpus) else gen_case(rng, quick)
+        # the configuration histories come first (apply_configs walks every component loaded so far)
+        case = corpus[idx] if idx < len(corpus) else (
+            gen_config_case(rng, quick) if idx - len(corpus) < n_conf else gen_case(rng, quick))
         rs = RuleSet(case)
         lines, impl, kinds, fails = evaluate(rs)
         segments.append((case, rs, len(all_lines), lines, impl, kinds))
         all_lines.extend(lines)
         for desc, finding in fails:
             chk.failure(desc, {"kind": "ruleset", "case": case}, finding=finding)
+        for k, v in rs.stats.items():
+            chk.count(k, v)
+        if case.get("config"):
+            chk.count("config:histories")
+            chk.count("config:applied-before-definition", 1 if case["config"].get("before") else 0)
+            chk.count("config:applications-after-definition", len(case["config"]["after"]))
+            for r in case["rules"]:
+                dcl, eff = rs.declared[r["id"]]["enabled"], rs.eff[r["id"]]["enabled"]
+                chk.count("config:rule %s -> %s" % ("enabled" if dcl else "disabled", "enabled" if eff else "disabled"))
+            for cfg in case["config"]["after"]:
+                for e in cfg["entries"]:
+                    chk.count("config:entry %s enabled=%s" % (e["kind"], e.get("enabled")))
         nv = set(x["id"] for x in case["bases"] if x["how"] in ("none", "seednone"))
         for r in case["rules"]:
             if nv & set(r["requires"]):
